@@ -45,7 +45,7 @@ CHECKS_FOR = [
     (r'^modules/srcparsers/', ['C20', 'C18', 'C03', 'C19']),
     (r'^modules/calloutparsers/', ['C03', 'C18', 'C19']),
     (r'^modules/pel/peltool/(private_header|user_header|extend_user_header|failing_mtms|imp_partition|pel_types|pel_values|comp_id)\.py$',
-     ['C02', 'C07', 'C01', 'C08', 'C10', 'C05', 'C19']),
+     ['C02', 'C03', 'C07', 'C01', 'C04', 'C08', 'C10', 'C05', 'C19']),
     (r'^modules/pel/peltool/src\.py$', ['C03', 'C01', 'C20', 'C18', 'C10', 'C05', 'C19', 'C06']),
     (r'^modules/pel/peltool/(parse_user_data|user_data|ext_user_data|default)\.py$', ['C04', 'C18', 'C01', 'C06', 'C19', 'C05']),
     (r'^modules/pel/peltool/registry\.py$', ['C03', 'C19', 'C02']),
@@ -236,6 +236,8 @@ def run_one(m, slot, procs):
         orig = f.read()
     assert orig[m['start']:m['end']] == m['old'], 'mutant list is stale: run gen again'
     res = {'id': m['id'], 'file': m['file'], 'op': m['op'], 'line': m['line'], 'old': m['old'][:60], 'new': m['new'][:60]}
+    if m.get('all_checks'):
+        res['all_checks'] = True
     t0 = time.time()
     try:
         with open(path, 'w', encoding='utf-8') as f:
@@ -290,6 +292,16 @@ def run(args):
                 r = json.loads(l)
                 done.add((r['file'], r['line'], r['op'], r['old'], r['new']))
     todo = [m for m in allm if (m['file'], m['line'], m['op'], m['old'][:60], m['new'][:60]) not in done]
+    if args.survivors_all:
+        # second phase: every mutant no mapped check reported goes through all twenty checks
+        surv = set()
+        with open(OUT) as f:
+            latest = {}
+            for l in f:
+                r = json.loads(l)
+                latest[(r['file'], r['line'], r['op'], r['old'], r['new'])] = r
+        surv = {k for k, r in latest.items() if r['status'] in ('survived', 'error') and not r.get('all_checks')}
+        todo = [dict(m, all_checks=True) for m in allm if (m['file'], m['line'], m['op'], m['old'][:60], m['new'][:60]) in surv]
     if args.only:
         todo = [m for m in todo if any(o in m['file'] for o in args.only)]
     todo = todo[args.offset::args.stride]
@@ -362,6 +374,7 @@ def main():
     r.add_argument('--stride', type=int, default=1)
     r.add_argument('--offset', type=int, default=0)
     r.add_argument('--limit', type=int, default=0)
+    r.add_argument('--survivors-all', action='store_true')
     p = sub.add_parser('report')
     p.add_argument('--survivors', action='store_true')
     a = ap.parse_args()
